@@ -1348,6 +1348,10 @@ def c14_cases(rng, tier):
         if rng.random() < 0.1:
             a, b = 1, 10 ** 12
         st = rng.choice([None, None, 1, 2, 3, 7, 1000, 10 ** 6, rng.randint(1, 10 ** 6)])
+        if st is not None and rng.random() < 0.35:
+            # spans that are an exact small multiple of the step, or one off it, in either direction
+            k_ = rng.choice([1, 1, 2, 3, 10])
+            b = a + rng.choice([1, -1]) * (st * k_ + rng.choice([0, 0, 0, 1, -1]))
         neg = st is not None and rng.random() < 0.3
         r = '%d-%d' % (a, b) if st is None else '%d-%dx%d' % (a, b, -st if neg else st)
         k = st or 1
